@@ -1439,9 +1439,12 @@ def feasible(h):
     return True
 
 
-def exhaustive(threads, managers, sels, n):
+def exhaustive(threads, managers, sels, n, first_thread=None):
+    """first_thread = t: only histories whose first operation is issued by thread t - with two interchangeable worker
+    threads (created alike, the code never looks at a thread's identity) every other history is one of these with the
+    two workers renamed"""
     al = alphabet(threads, managers, sels)
-    return [h for h in itertools.product(al, repeat=n) if feasible(h)]
+    return [h for h in itertools.product(al, repeat=n) if (first_thread is None or h[0][1] == first_thread) and feasible(h)]
 
 
 def random_history(rng, threads, managers, maxlen):
@@ -3515,7 +3518,7 @@ def make_groups(tier, rng):
         groups.append((m, False, 3, exhaustive([1, 2], [m], sels, 3), "exhaustive-3"))
         if not quick:
             small = SEL_SMALL if M.names_registered else [("o", 1), ("n", 4)]
-            groups.append((m, False, 3, exhaustive([1, 2], [m], small, 4), "exhaustive-4-small-alphabet"))
+            groups.append((m, False, 3, exhaustive([1, 2], [m], small, 4, first_thread=1), "exhaustive-4-small-alphabet"))
         # the main thread acts as well: all histories of length 2 (thorough: 3) over main + one worker
         groups.append((m, True, 2, exhaustive([0, 1], [m], sels, 2), "exhaustive-main"))
         nr = 1000 if quick else 5000
@@ -3525,7 +3528,7 @@ def make_groups(tier, rng):
     # both managers in one history, every thread observes both after every step
     groups.append((2, True, 2, exhaustive([0, 1], [0, 1], SEL_SMALL, 2), "mixed-exhaustive-2"))
     if not quick:
-        groups.append((2, False, 3, exhaustive([1, 2], [0, 1], SEL_SMALL, 3), "mixed-exhaustive-3"))
+        groups.append((2, False, 3, exhaustive([1, 2], [0, 1], SEL_SMALL, 3, first_thread=1), "mixed-exhaustive-3"))
     nr = 1200 if quick else 5000
     groups.append((2, True, 3, [random_history(rng, [0, 1, 2], [0, 1], 12 if quick else 30) for _ in range(nr)], "mixed-random-3-main"))
     # two concurrent calls under line-granular schedules (sys.settrace turn taking), then the exits one at a time
@@ -3794,11 +3797,11 @@ def run(chk):
     chk.cov["impl_seconds"] = round(t_impl, 1)
     chk.cov["rule"] = ("for EACH manager: every feasible history of length 3 (all shorter ones are their prefixes and are observed on the way) over the "
                        "28-letter alphabet {set, enter} x {known name, instance, unknown name} x {global, local} + exit {normal, exception} of two worker threads "
-                       "with the main thread observing (thorough adds length 4 over the 20-letter alphabet without the known name); every history of length 2 "
+                       "with the main thread observing (thorough adds length 4 over the 20-letter alphabet without the known name, up to renaming of the two workers: first operation by thread 1); every history of length 2 "
                        "over the main thread and one worker; random histories to length 12 (thorough: 40) over three actor threads with and without "
                        "the main thread among them, selectors: all names (stock, harness-registered, listed-but-not-importable, unknown, wrong case, a name of the "
                        "OTHER manager), four instances of two harness backend classes, two non-instances. BOTH managers in one history: every history of length 2 "
-                       "(thorough: 3 over two workers) over {main, worker} x {backend, tenalg} x {instance, unknown name}, random histories to length 12 (30) over "
+                       "(thorough: 3 over two workers, first operation by thread 1) over {main, worker} x {backend, tenalg} x {instance, unknown name}, random histories to length 12 (30) over "
                        "three threads incl. main, every thread observing both managers. Concurrent pairs: two calls (set / enter / exit) of threads 1 and 2 "
                        "interleaved at source-line granularity or (every second scenario) at BYTECODE granularity (f_trace_opcodes) by sys.settrace turn taking "
                        "(300 random scenario x schedule per manager, thorough 4000; plus a systematic sweep: 4 canonical pairs of non-local calls x one thread "
